@@ -592,7 +592,7 @@ def units(ctx, model, problems):
 # ---------------------------------------------------------------------------------------------------------
 # round 2: call histories around ZSTD_generateSequences, adversarial block-level sequence producer
 R2_KEYS = {"collector1": "C06-generateSequences-collector-left-armed", "producer1": "C06-splitter-exceeds-compressBound",
-           "legacy1": "C06-legacy-bound-oversize-raw-rle-blocks"}
+           "legacy1": "C06-legacy-bound-oversize-raw-rle-blocks", "legacy2": "C06-legacy-bound-oversize-compressed-block"}
 R2_KIND_KEYS = {"splitter-partition-table-overrun": "C06-splitter-partition-table-overrun"}
 
 
@@ -604,7 +604,7 @@ def r2_argv(desc):
         return f[:7]
     if f[0] == "producer1":
         return f[:14]
-    if f[0] == "legacy1":
+    if f[0] in ("legacy1", "legacy2"):
         return f[:4]
     return None
 
@@ -643,6 +643,10 @@ def round2(ctx, problems, model=None):
                     splitcases.append(d)
                     continue
                 ncases[mode] += 1
+                if mode == "legacy" and d.get("fam") == "legacy2":
+                    tot = int(d["total"])
+                    ctx.count(("r2-legacy2", d["ver"], d["nbSeq"], d["dec"] != "-1", 0 if tot < KB128 else 1 if tot == KB128 else 2), nontrivial=True)
+                    continue
                 if mode == "legacy":
                     sz = int(d["size"])
                     ctx.count(("r2-legacy", d["ver"], d["type"], d["dec"] != "-1", 0 if sz < KB128 else 1 if sz == KB128 else 2), nontrivial=sz > 0)
